@@ -299,3 +299,37 @@ def r6(x):
     if x == 0 or not math.isfinite(x):
         return x
     return float(f"{x:.6g}")
+
+
+def run_forked(fn, *args):
+    """fn(*args) in a forked child; the parent's process state is untouched by it and the
+    child starts from exactly the parent's current state.  Result is returned by pickle."""
+    import pickle
+
+    r, w = os.pipe()
+    pid = os.fork()
+    if pid == 0:
+        code = 0
+        try:
+            os.close(r)
+            data = pickle.dumps(("ok", fn(*args)))
+        except BaseException as e:  # noqa: BLE001
+            data = pickle.dumps(("err", traceback.format_exc(), type(e).__name__, str(e)))
+            code = 3
+        try:
+            with os.fdopen(w, "wb") as f:
+                f.write(data)
+        finally:
+            os._exit(code)
+    os.close(w)
+    with os.fdopen(r, "rb") as f:
+        data = f.read()
+    os.waitpid(pid, 0)
+    if not data:
+        raise RuntimeError("forked child died without a result")
+    out = pickle.loads(data)
+    if out[0] == "ok":
+        return out[1]
+    if out[2] == "RuntimeError":
+        raise RuntimeError(out[3])
+    raise RuntimeError("forked child failed:\n" + out[1])
